@@ -133,9 +133,9 @@ def c04_jobs(tier):
         for k in (33, 44, 45, 47, 48):
             jobs.append(job(MSG, "HDecodeBody", [k, n], cut=ALL_CUTS, **A))
     # (2) body decoders, loops unrolled
-    nb, nsa, nloop, naka = (32, 20, 24, 12) if q else (64, 26, 40, 16)
+    nb, nsa, nts, ncp, naka = (32, 20, 100, 40, 12) if q else (64, 26, 200, 64, 16)
     for k in range(33, 48):
-        top = nsa if k == 33 else (nloop if k in (44, 45, 47) else nb)
+        top = nsa if k == 33 else (nts if k in (44, 45) else (ncp if k == 47 else nb))
         for n in range(0, top + 1):
             jobs.append(job(MSG, "HDecodeBody", [k, n], **A))
     for n in range(0, naka + 1):
@@ -502,7 +502,7 @@ def c12_jobs(tier):
     q = tier == "quick"
     jobs = []
     A = dict(solver="cvc5")
-    nsa, nb, nloop, ncp, ne = (20, 28, 24, 24, 4 + 16) if q else (26, 44, 36, 26, 4 + 18)
+    nsa, nb, nloop, ncp, ne = (20, 28, 64, 24, 4 + 16) if q else (26, 44, 120, 26, 4 + 18)
     for k in range(33, 48):
         top = nsa if k == 33 else (ncp if k == 47 else (nloop if k in (44, 45) else nb))
         for n in range(0, top + 1):
@@ -677,7 +677,7 @@ PROPS = {
                 assumptions=["NewIKESAKey with a foreign integrity transform runs the Diffie-Hellman step before it fails: there the public and shared values are assumed to have no leading zero octet and the exponent rejection loop is unwound twice (unwinding assumption); C09 decides those cases"] + CRYPTO_ASSUME),
 
     "C12": dict(jobs=c12_jobs, claim="For every byte string up to the bound (arbitrary content, per payload body decoder, per EAP packet, and whole datagrams including chains with unsupported payloads): decode ok and encode ok imply that the re-encoding decodes to an equal value and encodes to itself (fixed point after one step); canonical datagrams of the independent encoder (zero reserved bits, no unsupported payloads, exact lengths, transforms grouped by ascending type) re-encode byte-identically. Loops are unrolled (the contents of what was decoded matter), and re-encoding concretises symbolic field lengths by solver enumeration, which is what limits the bound.",
-                bounds=lambda t: "payload bodies: SA <= %d octets, TS/CP <= %d, others <= %d; EAP packets <= %d; whole datagrams <= %d octets; canonical datagrams from the generator shapes (every kind alone, 15 pairs)" % ((20, 24, 28, 20, 36) if t == "quick" else (26, 36, 44, 22, 38)) + ("" if t == "quick" else " (CP <= 26)"),
+                bounds=lambda t: "payload bodies: SA <= %d octets, TS <= %d, CP <= %d, others <= %d; EAP packets <= %d; whole datagrams <= %d octets; canonical and liberal datagrams from the generator shapes (every kind alone, 15 pairs, three payloads with 600 data octets each); foreign SA payloads with up to %d transforms of arbitrary types" % ((20, 64, 24, 28, 20, 36, 3) if t == "quick" else (26, 120, 26, 44, 22, 38, 4)),
                 outside="longer byte strings; a panic inside Encode of a decoded value would be reported as a panic violation (none found)"),
 
     "C17": dict(jobs=c17_jobs, claim="Inductive step instead of exploring histories: the SA key object starts in an arbitrary reachable state (every keyed-hash object with arbitrary octets already written - the HMAC buffer is the objects' only state and any content is reachable through a previous rejected message; ciphers satisfying the representation invariant) and one operation - protect as either role, unprotect a genuine message, reject an arbitrary datagram with invalid ICV, derive Child SA keys - must give the result a fresh object gives (accepted by / accepting a fresh peer, payloads equal, forged still rejected and the cipher not reached, keys equal to the specification), and must re-establish the invariant, which covers operation sequences of any length; two-operation sequences are run explicitly as a cross-check.",
@@ -734,8 +734,8 @@ PROPS = {
     "C03": dict(jobs=c03_jobs, claim="For every message shape within the bounds the solver shows Decode(Encode(m)) == m field by field for all field values at once (all 2^16 attribute types, all SPI contents, all ports and addresses), which pinned vectors cannot cover.", bounds=lambda t: "every payload kind alone at the %s shape set of the generator, the empty message, %s ordered pairs at minimal shape, EAP methods, EAP-AKA' attribute subsets of size %s" % (("quick", "15", "<= 2") if t == "quick" else ("thorough", "225", "<= 7")),
                 outside="opaque data longer than 24 octets, more than 2 payloads, more than 2 proposals / 3 transforms / 3 selectors (thorough: also the 255-selector TS payloads)"),
     "C04": dict(jobs=c04_jobs, claim="Every decoding entry point (ParseHeader, IKEMessage.Decode, the payload chain walker with a symbolic first type, each of the 16 payload body decoders, EAP.Unmarshal and the five EAP method bodies, DecodeDecrypt with and without keys and with the header nil or parsed from the same bytes, IKECrypto.Decrypt) is executed symbolically on an arbitrary buffer of every length up to the bound, with symbolic spare capacity behind it; every index, slice, make, nil and type-assertion obligation, the no-over-read obligation (no re-slice of the input beyond its length), 'input unchanged afterwards' and, per input-consuming loop, either an unwinding assertion (unrolled) or a strictly decreasing variant (one iteration from an arbitrary loop-head state: cut mode) is discharged by the solver for all contents.",
-                bounds=lambda t: ("cut mode (chain walker, SA proposals / transforms, TS selectors, CP attributes, EAP-AKA' attributes): every length 0..%d; loops unrolled: bodies 0..%d (SA 0..%d, TS/CP 0..%d, EAP / EAP-AKA' 0..%d), header 0..40, whole message 0..%d, chain 0..%d; cipher 0..%d for 3 key sizes; unprotection with keys: Encrypted payload spanning the datagram 0..%d octets (%s suites, both roles, inner chain in cut mode), arbitrary chains 0..36; without keys 0..36 unrolled and 28..%d cut"
-                                  % ((64, 32, 20, 24, 12, 36, 8, 64, 96, 3, 92) if t == "quick" else (160, 64, 26, 40, 16, 38, 10, 96, 128, 9, 188))),
+                bounds=lambda t: ("cut mode (chain walker, SA proposals / transforms, TS selectors, CP attributes, EAP-AKA' attributes): every length 0..%d; loops unrolled: bodies 0..%d (SA 0..%d, TS 0..%d, CP 0..%d, EAP / EAP-AKA' 0..%d), header 0..40, whole message 0..%d, chain 0..%d; cipher 0..%d and 1568 (thorough also 1040, 4112) for 3 key sizes; unprotection with keys: Encrypted payload spanning the datagram 0..%d octets (%s suites, both roles, inner chain in cut mode; the same behind a skipped payload of 4 or 13 octets), arbitrary chains 0..36; without keys 0..36 unrolled and 28..%d cut"
+                                  % ((64, 32, 20, 100, 40, 12, 36, 8, 64, 96, 3, 92) if t == "quick" else (160, 64, 26, 200, 64, 16, 38, 10, 96, 128, 9, 188))),
                 outside="longer buffers (the property's 65535): in cut mode the claim for long chains rests on the induction argument of DESIGN.md 2.3 (first-arrival states range over all well-formed loop-head states), un-cut runs at small sizes cross-check it",
                 assumptions=CRYPTO_ASSUME),
 }
